@@ -9,7 +9,7 @@
 A case = {'tempi': ['2', '1/2', …], 'root': 'sys'|'app'|'t0'…, 'rts': [[act…], …],
           'late': {'mode': 'zero'|'common'|'perthread'|'random', 'vals': ['1/64', …]}}
 Acts (tokens of lean/Sc3Verif/C05/Driver.lean): y d | hang | log | send b | spawn r clk | tempo i x |
-pause r | resume r | stop r | wait c | sig c | seed n | draw.
+pause r | resume r | stop r | wait c | sig c | seed n | draw | pull r (r.next() on a sub-stream).
 
 Output per case: {'trace': 'R:… L:… | end=… pend=…'  (same text as the Lean driver's `dump`),
                   'moves': [['adv','1/8'], ['run','sys'], …]   (RT only),
@@ -91,8 +91,26 @@ class Prog:
         r = random.Random(seed)
         self.streams[gid] = [r.random() for _ in range(NDRAW)]
 
-    def create(self, i):
-        r = self.RR(self.make_body(i))
+    def make_sub_body(self, i):
+        """Body of a routine only ever pulled with next() from another body (a sub-stream)."""
+        script, run, main, bi = self.case['rts'][i], self, self.main, self.env['bi']
+
+        def body():
+            for a in script:
+                op = a[0]
+                if op == 'y':
+                    yield num(a[1])
+                elif op == 'seed':
+                    main.current_tt.rand_seed = a[1]
+                    run.add_stream(a[1], a[1])
+                elif op == 'draw':
+                    g, n = run.gen_of(bi.rand(1.0))
+                    run.events.append(f'D:{i}:{g}:{n}')
+        body.__qualname__ = f'sub{i}'
+        return body
+
+    def create(self, i, sub=False):
+        r = self.RR(self.make_sub_body(i) if sub else self.make_body(i))
         self.R[i] = r
         self.idx[id(r)] = i
         return r
@@ -153,6 +171,13 @@ class Prog:
                 elif op == 'seed':
                     main.current_tt.rand_seed = a[1]
                     run.add_stream(a[1], a[1])
+                elif op == 'pull':
+                    if a[1] != i:
+                        r = run.R[a[1]] or run.create(a[1], sub=True)
+                        try:
+                            r.next()
+                        except stm.StopStream:
+                            pass
                 elif op == 'draw':
                     last = bi.rand(1.0)
                     g, n = run.gen_of(last)
